@@ -177,8 +177,8 @@ def replay_decl(case, ctx, r, tg):
     c2, e2 = call(circuit_translator, d2)
     if e1 is None and e2 is None:
         r.observations += 1
-        a = [(c.type, c.id, dict(c.value)) for c in c1.components if c.type != 'ground']
-        b = [(c.type, c.id, dict(c.value)) for c in c2.components if c.type != 'ground']
+        a = sorted([(c.type, c.id, dict(c.value)) for c in c1.components if c.type != 'ground'], key=lambda x: x[1])
+        b = sorted([(c.type, c.id, dict(c.value)) for c in c2.components if c.type != 'ground'], key=lambda x: x[1])
         if len(a) != len(b) or any(x[0] != y[0] or x[1] != y[1] or not c13.same_value(x[2], y[2]) for x, y in zip(a, b)):
             r.mismatches.append({'what': 'declarative vs programmatic construction', 'got': repr(a), 'want': repr(b), 'signature': 'declarative:differs_from_programmatic', 'detail': ctxs})
 
